@@ -15,7 +15,8 @@ Definition udf_params : list (ustr * list (ustr * ustr)) := [
   (udf "nullif", [(u "v"%string, udf "p_v"); (u "x"%string, udf "p_x")]);
   (udf "empty", [(u "v"%string, udf "p_v")]);
   (udf "maybe", [(u "v"%string, udf "p_v")]);
-  (udf "pair", [(u "a"%string, udf "p_a"); (u "b"%string, udf "p_b")])].
+  (udf "pair", [(u "a"%string, udf "p_a"); (u "b"%string, udf "p_b")]);
+  (udf "evens", [(u "v"%string, udf "p_v")])].
 Definition fun_params (fid : ustr) : option (list (ustr * ustr)) :=
   match assoc fid Tables.bif with Some ps => Some ps | None => assoc fid udf_params end.
 
@@ -63,4 +64,6 @@ Definition apply_fun (fid : ustr) (args : list (ustr * ustr)) : fres :=
     match farg args "v" with Some v => if memN 44 v then FList (split_on [44] v) else FStr v | None => FRaise end
   else if is_fun fid (udf "pair") then
     match farg args "a", farg args "b" with Some x, Some y => FList [x; y] | _, _ => FRaise end
+  else if is_fun fid (udf "evens") then
+    match farg args "v" with Some v => if Nat.even (length v) then FList [v] else FList [] | None => FRaise end
   else FUnmod.
